@@ -1,14 +1,20 @@
 #!/bin/bash
-# tools/run_seeded.sh <patch.diff> <tier> Cxx [Cyy...]  — apply a breaking change in a scratch worktree of /repo and run the checks on it
+# tools/run_seeded.sh <patch.diff> <tier> Cxx [Cyy...]
+# Apply a breaking change in a scratch worktree of /repo and run the checks on it FROM A PRIVATE COPY of /verif
+# (so regenerated Gen files, lake builds and evidence of the evaluation never disturb /verif itself).
 set -u
 patch=$(realpath "$1"); tier=$2; shift 2
+EV=${SEEDED_VERIF_COPY:-/tmp/seeded_verif_copy}
+exec 9>/tmp/.seeded_eval.lock; flock 9
+mkdir -p "$EV"
+rsync -a --delete --exclude replays --exclude evidence --exclude .git /verif/ "$EV"/
+mkdir -p "$EV/evidence" "$EV/replays"
 wt=$(mktemp -d /tmp/seeded.XXXXXX)/wt
 git -C /repo worktree add -q --detach "$wt" HEAD || exit 3
 if ! git -C "$wt" apply --3way "$patch" 2>/dev/null && ! git -C "$wt" apply "$patch"; then echo "PATCH-DOES-NOT-APPLY $patch"; git -C /repo worktree remove --force "$wt"; exit 3; fi
-cd /verif
+cd "$EV"
 for p in "$@"; do
   out=$(BNP_REPO="$wt" timeout 3000 ./check "$p" --tier "$tier" 2>&1 | grep -v "^KNOWN-FINDING" | tail -2 | tr '\n' ' ' | cut -c1-220)
   echo "[$p on $(basename $(dirname $patch))] $out"
 done
 git -C /repo worktree remove --force "$wt"; rmdir "$(dirname $wt)" 2>/dev/null
-for p in "$@"; do ./check "$p" --tier quick >/dev/null 2>&1; done   # restore Gen files / evidence from /repo itself
